@@ -165,6 +165,7 @@ func cmdCheck(args []string) int {
 	model := fs.Bool("m", false, "print models of failed obligations")
 	lemmas := fs.Bool("lemmas", false, "also prove lemmas")
 	memlem := fs.Bool("memlemmas", false, "also prove the word-level memory axioms")
+	rows := fs.String("rows", "", "also check the rows of these registration tables (comma separated)")
 	fs.Parse(args)
 	KeepQueries = *keep
 	p, err := Load(RepoDir, "./...")
@@ -208,6 +209,16 @@ func cmdCheck(args []string) int {
 		if *memlem {
 			lobls = append(lobls, MemLemmas()...)
 		}
+		if *rows != "" {
+			for _, tb := range strings.Split(*rows, ",") {
+				ro, errs := w.RowObligations(tb)
+				lobls = append(lobls, ro...)
+				for _, e := range errs {
+					fmt.Println("    row error:", e)
+					bad++
+				}
+			}
+		}
 		res := DischargeAll(lobls, *timeout, false, runtime.NumCPU())
 		for _, r := range res {
 			if r.Status != "unsat" || *verbose {
@@ -219,6 +230,13 @@ func cmdCheck(args []string) int {
 		}
 		fmt.Printf("%-50s %d obligations\n", "lemmas", len(res))
 	}
+	// generate everything first, then discharge all obligations in one parallel batch
+	type grp struct {
+		key    string
+		lo, hi int
+	}
+	var groups []grp
+	var all []*Obligation
 	for _, k := range keys {
 		fv, err := w.Generate(k)
 		if err != nil {
@@ -244,7 +262,13 @@ func cmdCheck(args []string) int {
 			}
 			obls = f
 		}
-		res := DischargeAll(obls, *timeout, false, runtime.NumCPU())
+		groups = append(groups, grp{k, len(all), len(all) + len(obls)})
+		all = append(all, obls...)
+	}
+	allRes := DischargeAll(all, *timeout, false, runtime.NumCPU())
+	for _, g := range groups {
+		k := g.key
+		res := allRes[g.lo:g.hi]
 		ok := 0
 		for _, r := range res {
 			if r.Status == "unsat" {
